@@ -81,6 +81,8 @@ def subtree_at(T, rp):
 
 
 def classify(finding, case):
+    if finding["cls"] == "indentation-not-xml-whitespace":
+        return bool(case.get("indentation", "").strip(" \t\r\n"))
     if finding["cls"] == "verbatim-content-with-newline":
         return case.get("width", 0) > 0 and verbatim_newline(pp.tuple_tree(case["doc"]))
     if finding["cls"] == "foreign-namespace-after-subtree":
@@ -338,6 +340,92 @@ def check_docs(ctx, docs, max_sub, n0, nw, seen_rate):
                              {"case": case, "impl": parsed, "model": common.dec_node(sv)[0]})
 
 
+# ---------------------------------------------------------------------------------------------- the indentation's domain
+BAD_INDENTS = ["\u00a0", "\u2003", "\u3000", "\x0b", "\x0c", "\x85", "\u2028", " \u00a0", " \u2003 ", "\t\x0c", "\n\u3000", "\x1c"]
+XML_WS_INDENTS = ["\r", "\n ", " \r\n", "\r\t", "\n", " "]
+DOMAIN_DOCS = ['<r a="1" b="2"><x c="3" d="4"/></r>', '<p k="v" id="1">aa bb <i k="v" n="2">cc dd</i> ee<!--c--><b/> ff</p>',
+               '<!--p--><r a="1" b="2"> <x c="3" d="4"> t </x> </r><?e f?>']
+
+
+def check_indentation_domain(ctx):
+    """white space that is none in XML (str.isspace accepts it) must be refused as indentation by every entry point -
+    an output that is returned all the same must be read back as the tree; XML white space (also CR) keeps working"""
+    import os
+    import tempfile
+    from delb import DefaultStringOptions
+    tmp = tempfile.mkdtemp(prefix="c03ind")
+    path = os.path.join(tmp, "out.xml")
+
+    def by_serialize(doc, fo):
+        return doc.root.serialize(format_options=fo)
+
+    def by_str(doc, fo):
+        DefaultStringOptions.format_options = fo
+        try:
+            return str(doc)
+        finally:
+            DefaultStringOptions.reset_defaults()
+
+    def by_str_node(doc, fo):
+        DefaultStringOptions.format_options = fo
+        try:
+            return str(doc.root)
+        finally:
+            DefaultStringOptions.reset_defaults()
+
+    def by_write(doc, fo):
+        b = pp._Buf()
+        doc.write(b, format_options=fo)
+        return b.getvalue().decode("utf-8")
+
+    def by_save(doc, fo):
+        from pathlib import Path
+        doc.save(Path(path), format_options=fo)
+        with open(path, encoding="utf-8", newline="") as f:
+            return f.read()
+
+    entries = [("node.serialize", by_serialize), ("str(document)", by_str), ("str(node)", by_str_node),
+               ("Document.write", by_write), ("Document.save", by_save)]
+    try:
+        with no_gc():
+            for xml in DOMAIN_DOCS:
+                doc = pp.load_reduced(xml)
+                T = extract(doc.root)
+                for ind in BAD_INDENTS + XML_WS_INDENTS:
+                    bad = bool(ind.strip(" \t\r\n"))
+                    for w in (0, 5, 40):
+                        for align in (False, True):
+                            for name, fn in entries:
+                                case = {"xml": xml, "doc": T, "subtree": [], "indentation": ind, "width": w, "align": align,
+                                        "entry": name}
+                                ctx.count(1, "indentation domain/%s" % ("not XML white space" if bad else "XML white space"))
+                                try:
+                                    out = fn(doc, pp.fo(ind, w, align))
+                                except ValueError as e:
+                                    if not bad:
+                                        ctx.fail("XML white space refused as indentation: %s" % e, case, classify)
+                                    continue
+                                except Exception as e:  # noqa: BLE001
+                                    ctx.fail("%s raised %s: %s" % (name, type(e).__name__, e), dict(case, raises=type(e).__name__), classify)
+                                    continue
+                                ctx.nontrivial_case((xml, ind, w, align, name))
+                                try:
+                                    back = roundtrip(out)
+                                except Exception as e:  # noqa: BLE001
+                                    ctx.fail("formatted output is not re-readable: %s: %s" % (type(e).__name__, e), dict(case, impl=out), classify)
+                                    continue
+                                if back != T:
+                                    ctx.fail("serializing with format options and re-reading with whitespace reduction does not give the tree back",
+                                             dict(case, impl=out, reread=back), classify)
+    finally:
+        try:
+            if os.path.exists(path):
+                os.remove(path)
+            os.rmdir(tmp)
+        except OSError:
+            pass
+
+
 FIXED = [
     ("<r/>", None), ("<r> </r>", None), ("<r>a b c d e f</r>", 5), ("<r> a <b>x</b> c </r>", 6),
     ("<r>aa <b xml:space=\"preserve\"> x  y </b> cc</r>", 8), ("<r><a/><b/> <c/></r>", 3),
@@ -429,6 +517,7 @@ def run(ctx, args):
     docs = [("fixed", x, h) for x, h in FIXED] + gen_docs(ctx, 140 if quick else 900)
     check_docs(ctx, docs, max_sub=2 if quick else 4, n0=1 if quick else 2, nw=3 if quick else 6,
                seen_rate=0.25 if quick else 0.3)
+    check_indentation_domain(ctx)
     return ctx.finish(
         rule="documents: fixed cases (incl. siblings with identical content, non-ASCII white space) + random mixed-content documents of depth <= 3 (now and then the last child repeats the content of an earlier text / comment / PI that is directly followed by a node; word separators now and then with U+00A0 / U+2003 / U+2009 / U+3000; texts with words whose ends are "
              "biased to width-1/width/width+1, long unbreakable words, escaped characters, comments/PIs between texts, "
@@ -443,6 +532,7 @@ def run(ctx, args):
              "serialization (root and sub-trees; re-read with the real namespace-aware parser); mixed documents parsed "
              "without reduction, with 1-4 text nodes attached next to their text nodes through the API, then reduced with "
              "Document.reduce_whitespace(). The reduced document itself must be in normal form (reduce_model t = t). "
+             "The indentation's domain (fixed): 3 documents x 12 indentation strings with white space that is none in XML (U+00A0, U+2003, U+3000, VT, FF, NEL, U+2028, FS, alone and mixed) x 6 of XML white space (incl. CR) x width {0, 5, 40} x align x {node.serialize, str(document), str(node), Document.write, Document.save}: the former must raise ValueError (an output that is returned must read back as the tree), the latter must read back as the tree. "
              "One evaluation = one (tree, options) output compared byte for byte with the model and re-read through the "
              "real parser with ParserOptions(reduce_whitespace=True); a sample is also compared at the parsed-tree level. "
              "Non-trivial = the formatted output differs from the plain serialization; distinct by (tree, options).",
